@@ -85,8 +85,9 @@ CHECKS["C13"] = dict(
     engine="codec",
     category="model_checking",
     text="Codec.tla transcribes the decoder's case analysis over abstract frames (classes of the metadata length prefix, "
-         "metadata bytes, method-name entity kind, direction, payload length prefix, payload bytes) and maps each frame to "
-         "its allowed outcomes, 'panic' in none; TLC checks totality and enumerates the complete lattice (3840 frames); "
+         "metadata bytes, method-name entity kind, direction, payload length prefix, payload bytes; the length-prefix classes "
+         "include truncated and over-long varints and values >= 2^63 that wrap when converted) and maps each frame to "
+         "its allowed outcomes, 'panic' in none; TLC checks totality and enumerates the complete lattice (8064 frames); "
          "each is instantiated to concrete bytes (1, thorough 8 seeded instances) and decoded by the real Codec under "
          "recover; TLC validates every outcome against Decode(frame), every round trip of all 17 registered methods in "
          "both directions (payload, metadata, status code/message/details equal, right type) and arbitrary byte strings "
@@ -148,8 +149,12 @@ CHECKS["C09"] = dict(
          "exhaustively on Channel.tla incl. streaming requests with bounded reply channels and early completion; TLC's "
          "19-state counterexample of the lock wedge (found with the pre-fix deviations) is replayed with gates on the real "
          "library for 9 call kinds, as are stream-outruns-call and ctx-while-written, each followed by a probe RPC that must "
-         "be answered; free workloads (mixed calls, cancellations at arbitrary instants, late replies) must end clean "
-         "(every invocation returns, router tables empty).",
+         "be answered; further scenarios from TLC counterexamples and fault workloads: stream-replaced, stream-dies-unseen "
+         "(found by TLC after the model learnt the eager connect), stream-ctx-while-queued-full, ctx-before-send; "
+         "NoPermanentStrand (nothing outstanding once every timer has fired). Every scenario execution is also validated at "
+         "transport level: each hook event of the node's channel against Channel.tla action by action (ChannelTrace.tla). "
+         "Free workloads (mixed calls, cancellations at arbitrary instants, late replies; also with servers crashing and "
+         "restarting at random) must end clean (every invocation returns, router tables empty).",
     ref="DESIGN.md 5 C09, 3.2", note=LIFE_NOTE, technique=LIFE_TECH)
 CHECKS["C10"] = dict(
     engine="life", category="model_checking",
@@ -158,7 +163,10 @@ CHECKS["C10"] = dict(
          "point. Scenarios restart (back-off base 20 s, gRPC's own redial fired explicitly) and down-at-creation x 9 call "
          "kinds require the probe call issued after the node is back to be answered before quiescence; scenario metadata "
          "(general + per-node metadata, node 1 crashes and reconnects, node 2 is down at creation and connects late): every "
-         "accepted connection carries the expected metadata and runs the connect callback exactly once.",
+         "accepted connection carries the expected metadata and runs the connect callback exactly once; scenarios "
+         "failed-reconnect-between-reads (NoPanic: no goroutine dies on a nil stream) and wake-before-sleep (lost wake-up "
+         "of the back-off); transport-level validation of every scenario trace (ChannelTrace.tla); free workloads with "
+         "random server stop/restart end with a probe quorum call over all nodes that must succeed.",
     ref="DESIGN.md 5 C10, 3.2", note=LIFE_NOTE, technique=LIFE_TECH)
 CHECKS["C12"] = dict(
     engine="life", category="model_checking",
@@ -199,9 +207,10 @@ CHECKS["C07"] = dict(
     engine="calls", category="fault_enumeration",
     text="Fault enumeration driven by the specification: TLC enumerates, for qc / async / custom-return quorum calls on 2-3 "
          "nodes with every threshold, every assignment of {reply, handler error, connection failure} to the nodes at every "
-         "position of the arrival order (5364 behaviours), with three connection-failure kinds (server stopped while the "
-         "handler is pending, stopped before the call, never started); each behaviour runs on a fresh manager and servers "
-         "(quick: 320 seeded; thorough: all, 8 drivers in parallel). TLC validates the traces against CallsTrace.tla: "
+         "position of the arrival order, with three connection-failure kinds (server stopped while the handler is pending, "
+         "stopped before the call, never started) and a failed node that comes back, is reconnected by the library and "
+         "fails again while the call still waits (7185 behaviours); each behaviour runs on a fresh manager and servers "
+         "(quick: 320 seeded, a third of them with a flapping node; thorough: all, 8 drivers in parallel). TLC validates the traces against CallsTrace.tla: "
          "outcome = the specification's (success whenever the surviving replies satisfy the QF), each failing node exactly "
          "once in the error list and never in a QF reply set, handler failures carry the handler's status code and message, "
          "connection failures do not, and at quiescence no call is waiting for a node whose server was stopped. "
@@ -217,8 +226,10 @@ CHECKS["C16"] = dict(
     engine="gen", category="model_checking",
     text="Gen.tla transcribes doc/method-options.md: Verdict(service) in {accept (documented combination), reject (reserved "
          "message name, documented illegal stream/option combination), either (undocumented mix: diagnostic or compiling "
-         "output)} and Acceptable(verdict, run). TLC enumerates the lattice (821 single-method services over option sets x "
-         "per_node_arg x custom_return_type x client/server stream x local/imported types, reserved names, two services; "
+         "output)} and Acceptable(verdict, run). TLC enumerates the lattice (1625 services: single-method services over option sets x "
+         "per_node_arg x custom_return_type x client/server stream x local/Empty/imported types, reserved names, two services, "
+         "every documented method with a message imported from a Go package named like one the generated file uses itself "
+         "(encoding, fmt, gorums, context, proto) and with CamelCase / lowerCamel / snake_case / lower-case rpc names; "
          "thorough adds all ordered pairs of documented methods); the plugin built from the working tree runs three times "
          "per definition under a timeout (determinism = identical bytes), everything emitted is compiled with the standard "
          "message code against /repo in one batch, and TLC validates every outcome.",
@@ -229,7 +240,8 @@ CHECKS["C17"] = dict(
     text="Binding(method) of Gen.tla: receiver type, runtime entry (RPCCall/QuorumCall/AsyncCall/CorrectableCall/Multicast/"
          "Unicast), the fully-qualified method string on the client stub and in the server registration, ServerStream flag, "
          "PerNodeArgFn, quorum-function name, server handler kind. For every accepted method of the enumerated services the "
-         "tuple extracted with go/ast from the freshly generated code must equal the specification's row. All behavioural "
+         "tuple extracted with go/ast from the freshly generated code must equal the specification's row (360 rows, incl. rpc "
+         "names that GoCamelCase changes: the wire name is the name as written, on both sides). All behavioural "
          "checks (C01-C12) link stubs regenerated from the working tree, so a wrong binding also shows up as a rejected "
          "trace there. Auxiliary, syntactic: all 19 checked-in *_gorums.pb.go of the root module are regenerated from their "
          "compiled-in descriptors and compared with the committed files comments aside, and template_static.go is compared "
